@@ -1,8 +1,9 @@
 (* Extraction of the C12 models for the correspondence check. ExtrOcamlBasic only. *)
 From V.lib Require Import Base.
-From V.c12 Require Import C12Model C12Spec.
+From V.c12 Require Import C12Model C12Spec C12Sidx.
 Require Import ExtrOcamlBasic.
 Separate Extraction
   kind sref tfra traf topbox sidx fragment segment file opts
   assemble add_children empty_file encode_file encode_segment_mode
-  frag_media sidx_starts.
+  frag_media sidx_starts
+  update_sidx seg_size.
